@@ -64,6 +64,7 @@ type State struct {
 	frames   []*Frame
 	heap     map[int]Value
 	pc       []*Term
+	core     []*Term // pc without "assume after assert" conjuncts: used for reach witnesses
 	ghost    map[string]Value
 	status   int
 	ret      Value
@@ -165,8 +166,12 @@ func (e *Engine) addObl(st *State, kind, label, site string, goal *Term) {
 	if e.oblSeq[base] > 1 {
 		id = fmt.Sprintf("%s~%d", base, e.oblSeq[base])
 	}
-	pc := make([]*Term, len(st.pc))
-	copy(pc, st.pc)
+	src := st.pc
+	if kind == "reach" {
+		src = st.core
+	}
+	pc := make([]*Term, len(src))
+	copy(pc, src)
 	e.obls = append(e.obls, &Obligation{ID: id, Kind: kind, Site: site, Harness: e.harness, Case: e.caseLabel, pc: pc, goal: goal})
 }
 
@@ -176,7 +181,31 @@ func (e *Engine) oblige(st *State, kind, label, site string, goal *Term) {
 		return
 	}
 	e.addObl(st, kind, label, site, goal)
-	st.assume(goal)
+	st.assumeProved(goal)
+}
+
+// assumedGoals: terms that entered a path condition only because an obligation
+// with that goal was emitted first ("assume after assert"). They are implied
+// by the rest of the path condition whenever all obligations hold, so reach
+// witnesses may ignore them.
+var assumedGoals = map[int]bool{}
+
+// weakenAssumed replaces assumed goals by true inside and/or structure.
+func weakenAssumed(t *Term) *Term {
+	if assumedGoals[t.ID] {
+		return True()
+	}
+	if t.Op == OpAnd || t.Op == OpOr {
+		na := make([]*Term, len(t.Args))
+		for i, a := range t.Args {
+			na[i] = weakenAssumed(a)
+		}
+		if t.Op == OpAnd {
+			return And(na...)
+		}
+		return Or(na...)
+	}
+	return t
 }
 
 func (st *State) assume(c *Term) {
@@ -184,6 +213,19 @@ func (st *State) assume(c *Term) {
 		return
 	}
 	st.pc = append(st.pc, c)
+	st.core = append(st.core, c)
+}
+
+// assumeProved adds a conjunct that an obligation establishes; it does not
+// restrict reachability.
+func (st *State) assumeProved(c *Term) {
+	if c.IsTrue() {
+		return
+	}
+	st.pc = append(st.pc, c)
+	if c.IsFalse() {
+		st.core = append(st.core, c)
+	}
 }
 
 // implied: +1 when c is syntactically in the path condition, -1 when its negation is.
@@ -270,6 +312,7 @@ func (st *State) fork() *State {
 		ns.ghost[k] = v
 	}
 	ns.pc = append([]*Term(nil), st.pc...)
+	ns.core = append([]*Term(nil), st.core...)
 	return ns
 }
 
@@ -299,6 +342,23 @@ func (e *Engine) mergeStates(ss []*State) *State {
 	res.pc = append(append([]*Term(nil), ss[0].pc[:base]...), Or(conds...))
 	if len(res.pc) > 0 && res.pc[len(res.pc)-1].IsTrue() {
 		res.pc = res.pc[:len(res.pc)-1]
+	}
+	// same for the reachability core
+	cb := len(ss[0].core)
+	for _, s := range ss[1:] {
+		n := 0
+		for n < cb && n < len(s.core) && s.core[n] == ss[0].core[n] {
+			n++
+		}
+		cb = n
+	}
+	cc := make([]*Term, len(ss))
+	for i, s := range ss {
+		cc[i] = And(s.core[cb:]...)
+	}
+	res.core = append(append([]*Term(nil), ss[0].core[:cb]...), Or(cc...))
+	if len(res.core) > 0 && res.core[len(res.core)-1].IsTrue() {
+		res.core = res.core[:len(res.core)-1]
 	}
 	return res
 }
@@ -1733,10 +1793,19 @@ func floatBin(op token.Token, x, y *Term) Value {
 
 // fpArith introduces a fresh bit pattern r with axiom to_fp(r) = op(RNE, to_fp(x), to_fp(y)).
 func fpArith(name string, x, y *Term) *Term {
+	key := fmt.Sprintf("%s|%d|%d", name, x.ID, y.ID)
+	if r, ok := fpMemo[key]; ok {
+		return r
+	}
 	r := Fresh("fp", 64)
 	r.Axiom = UF("@"+name, 0, r, x, y)
+	fpMemo[key] = r
 	return r
 }
+
+// fpMemo makes floating-point results functions of their operands (same
+// operation on the same operand terms yields the same result variable).
+var fpMemo = map[string]*Term{}
 
 func (e *Engine) convert(st *State, v Value, from, to types.Type, site string) Value {
 	fu, tu := from.Underlying(), to.Underlying()
